@@ -311,7 +311,7 @@ def run(ctx):
             # audit D12: how many generated cases lie inside the theorem domains (see c01.RUN_DOMAIN)
             import time
             t_dom = time.time()
-            dcases = cases if ctx.thorough else cases[:c01.DOMAIN_SAMPLE]
+            dcases = cases[:(c01.DOMAIN_SAMPLE * 4 if ctx.thorough else c01.DOMAIN_SAMPLE)]
             dom, derr = c01.domain_counts("c03dom", dcases, 2)
             res.extra["domain_eval_s"] = round(time.time() - t_dom, 1)
             if derr:
